@@ -153,7 +153,26 @@ func (e *env) deliver(chID byte, bz []byte, viaWire bool) (res inputResult, err 
 	}
 	runtime.ReadMemStats(&ms1)
 	res.alloc = ms1.TotalAlloc - ms0.TotalAlloc
-	res.after = e.digest()
+	// reading the node's state takes the node's locks: a lock left held by a panic that the connection recovered
+	// (the peer is dropped, the node lives on) blocks every later reader and writer - the node is wedged
+	doneD := make(chan struct{})
+	go func() { defer close(doneD); res.after = e.digestGuarded() }()
+	for i, d := range []time.Duration{20 * time.Second, 40 * time.Second, 80 * time.Second} {
+		select {
+		case <-doneD:
+		case <-time.After(d):
+			if desc, parked := parkedIn("main.(*env).digestGuarded("); parked && (i == 2 || strings.Contains(desc, "[sync.Mutex.Lock") || strings.Contains(desc, "[sync.RWMutex") || strings.Contains(desc, "[semacquire")) {
+				res.outcome, res.stack = "Wedge", desc
+				if res.pval != nil {
+					res.stack = fmt.Sprintf("panic recovered on the connection: %v\n%s", res.pval, desc)
+				}
+				return
+			}
+			continue
+		}
+		break
+	}
+	<-doneD
 	switch {
 	case disc:
 		res.outcome = "Disconnect"
@@ -299,6 +318,13 @@ func (r *runner) input(si int, st mbt.Step, viaWire bool) bool {
 	}
 	if res.alloc > r.maxAlloc {
 		r.maxAlloc = res.alloc
+	}
+	if res.outcome == "Wedge" {
+		r.fail(si, action, "property", true, "wedge:"+m.key(),
+			fmt.Sprintf("after the message the node's state can no longer be read: the reader waits for a lock that nobody releases (left held by the panic the connection recovered) - the consensus goroutine blocks on it the same way\nmessage bytes (%d): %x\n%s",
+				len(bz), trunc(bz, 200), res.stack), want, "Wedge")
+		r.e = nil // the environment is lost (its goroutines are parked for good)
+		return false
 	}
 	if res.outcome == "Crash" {
 		r.fail(si, action, "panic", true, "crash:"+m.key(),
